@@ -206,9 +206,11 @@ func (c02) Exec(seed int64, i int, tier string) Record {
 	if i >= len(enum) && (i-len(enum))%1500 == 333 {
 		return c02HugeCase(r) // class huge (b12_helpers.go)
 	}
-	var s, gen string
+	var s, gen, wantRegex string
 	if i < len(enum) {
 		s, gen = enum[i], c02SectionOf(i)
+	} else if (i-len(enum))%40 == 13 {
+		s, gen, wantRegex = c02GenRegex(r) // class regex-syntax (b14_helpers.go)
 	} else {
 		switch r.Weighted([]int{12, 34, 22, 14, 8, 10, 3}) {
 		case 0:
@@ -312,6 +314,9 @@ func (c02) Exec(seed int64, i int, tier string) Record {
 				}
 			}
 		}
+	}
+	if msg := c02RegexVerdict(wantRegex, c02Configs(s), outs); msg != "" {
+		viol("regex-syntax", "%s", msg)
 	}
 	rec.Info["outcomes"] = strings.Join(outs, ",")
 	if !trivial {
